@@ -69,6 +69,10 @@ func snGen(r *rand.Rand) *snInput {
 	return in
 }
 
+var snChooserOverride func([]int) int
+var snLastChoices []int
+var snLastEnabled [][]int
+
 func snRun(in *snInput, sink *CaseSink, fixedModel bool) {
 	db := nitro.New()
 	w := db.NewWriter()
@@ -129,7 +133,9 @@ func snRun(in *snInput, sink *CaseSink, fixedModel bool) {
 	// the scheduler learns "refcount hit zero" from the CloseDec park
 	r := rand.New(rand.NewSource(in.Seed))
 	var chooser func([]int) int
-	if len(in.Choices) > 0 {
+	if snChooserOverride != nil {
+		chooser = snChooserOverride
+	} else if len(in.Choices) > 0 {
 		chooser = replayChooser(in.Choices)
 	} else {
 		chooser = randomChooser(r, in.Sticky)
@@ -155,6 +161,8 @@ func snRun(in *snInput, sink *CaseSink, fixedModel bool) {
 		in.Choices = append(in.Choices, st[0])
 		tr = append(tr, fmt.Sprintf("(%d, %d)", st[0], st[1]))
 	}
+	snLastChoices = append([]int(nil), in.Choices...)
+	snLastEnabled = sch.Enabled
 	// observables at the end of the scheduled part
 	lastgc := int(db.GetLastGCSn())
 	var open, ret []string
@@ -262,6 +270,50 @@ func snRun(in *snInput, sink *CaseSink, fixedModel bool) {
 }
 
 func init() {
+	commands["snap-exh"] = func(a runArgs) error {
+		sink := NewSink(a.out, "C08", "Tie.SnapTie", a.seed)
+		sink.scope = "nat_scope"
+		sink.perFile = 200
+		sink.meta.Rule = "SYSTEMATIC: for each of a few small programs (2..3 goroutines, <= 2 ops each, 1..2 snapshots) every schedule with at most 2 preemptions is executed (depth-first enumeration over the enabled threads at every step; capped per program) and replayed on the model; non-trivial = at least two steps parked inside Open/Close windows"
+		top := rand.New(rand.NewSource(a.seed))
+		total := 0
+		for p := 0; p < a.n; p++ {
+			base := snGen(top)
+			if len(base.Progs) > 3 {
+				base.Progs = base.Progs[:3]
+			}
+			for i := range base.Progs {
+				if len(base.Progs[i]) > 2 {
+					base.Progs[i] = base.Progs[i][:2]
+				}
+			}
+			if base.N > 2 {
+				base.N = 2
+				base.Owners = base.Owners[:2]
+				for i := range base.Progs {
+					for j := range base.Progs[i] {
+						if base.Progs[i][j].S > 2 {
+							base.Progs[i][j].S = 2
+						}
+					}
+				}
+			}
+			for i := range base.Owners {
+				base.Owners[i] %= len(base.Progs)
+			}
+			runs := Explore(2, 1500, func(ch func([]int) int) ([]int, [][]int) {
+				in := *base
+				in.Choices = nil
+				snChooserOverride = ch
+				snRun(&in, sink, true)
+				snChooserOverride = nil
+				return snLastChoices, snLastEnabled
+			})
+			total += runs
+		}
+		sink.meta.Extra = map[string]interface{}{"programs": a.n, "schedules": total}
+		return sink.Flush()
+	}
 	commands["snap"] = func(a runArgs) error {
 		sink := NewSink(a.out, "C08", "Tie.SnapTie", a.seed)
 		sink.scope = "nat_scope"
